@@ -206,6 +206,34 @@ func (c *Ctx) genC02() {
 	cfg := baseCfg()
 	c.lattice(cfg, now, 0)
 	c.shapeLattice(cfg, now)
+	// the artifact binding: the envelope (ArtifactResponse) carries its own, older but still fresh, IssueInstant; the windows of
+	// what is inside are measured against the library clock all the same — an instant between the envelope's stamp and the
+	// clock must fall on the side of the clock
+	for _, gap := range []int64{80_000, 30_000, 1} {
+		for _, which := range []string{"none", "cond-noa", "sc-noa", "resp-ii", "assn-ii", "cond-nb"} {
+			for _, asig := range []string{"idp", "none"} {
+				acfg := baseCfg()
+				r := baseResp(acfg, now)
+				r.Sig = "idp"
+				mid := gap / 2
+				switch which {
+				case "cond-noa": // lapsed by the clock, not yet by the envelope's stamp
+					r.Entries[0].Cond.NOA = now - acfg.Skew - mid
+				case "sc-noa":
+					(*r.Entries[0].Subject)[0].Data.NOA = now - acfg.Skew - mid
+				case "resp-ii":
+					r.II = now - acfg.Delay - mid
+				case "assn-ii":
+					r.Entries[0].II = now - acfg.Delay - mid
+				case "cond-nb": // valid by the clock, not yet by the envelope's stamp
+					r.Entries[0].Cond.NB = now + acfg.Skew - mid
+				}
+				k := artCase{cfg: acfg, now: now, ids: []string{"id-req1"}, irtMode: "match", ii: now - gap, issuer: sp(acfg.IDPEntity), status: acfg.Success, sig: asig, resp: &r, respCount: 1}
+				c.count("c02-artifact-envelope-older-than-clock", which)
+				c.runArtifact(k, false)
+			}
+		}
+	}
 	{
 		// the SP's other configuration switches (custom audience / request-ID hooks that accept, IdP-initiated allowed,
 		// no explicit entity ID) must not matter to any validity window
@@ -287,10 +315,26 @@ func nearMiss(v string) []string {
 	out := []string{v, "https://evil.example.org/x", strings.ToUpper(v), v + "/", v + "?x=1", v[:len(v)-1], v + "x", "",
 		// white space around the value: another string (a reader that trims is comparing something the message does not say)
 		" " + v, v + " ", "  " + v + "  ", v + "   "}
-	return out
+	// other strings that a URL parser would call the same location: "equal" is equality of strings
+	alt := []string{v + "?", v + "#", v, v, v, v}
+	if rest, ok := strings.CutPrefix(v, "https://"); ok {
+		host, path, _ := strings.Cut(rest, "/")
+		alt[2] = "HTTPS://" + rest
+		alt[3] = "https://" + host + ":443/" + path
+		alt[4] = "https://login.example.net@" + rest
+		if len(path) > 1 {
+			alt[5] = "https://" + host + "/" + fmt.Sprintf("%%%02X", path[0]) + path[1:]
+		} else {
+			alt[5] = v + "%20"
+		}
+	} else {
+		alt[2], alt[3], alt[4], alt[5] = v+"%20", "x:"+v, v+"/.", "./"+v
+	}
+	return append(out, alt...)
 }
 
-var nmName = []string{"correct", "wrong", "upper", "slash", "query", "prefix", "extension", "empty", "lead-space", "trail-space", "both-spaces", "trail-spaces"}
+var nmName = []string{"correct", "wrong", "upper", "slash", "query", "prefix", "extension", "empty", "lead-space", "trail-space", "both-spaces", "trail-spaces",
+	"empty-query", "empty-fragment", "scheme-case", "default-port", "userinfo", "percent-encoded"}
 
 func (c *Ctx) genC03() {
 	now := ms(baseTime)
